@@ -1,5 +1,6 @@
 import SciVerif.Lemmas.C20
 import SciVerif.Lemmas.C20c
+import SciVerif.Lemmas.C20d
 
 /-!
 # C20 — Table, row and grid helpers behave like their simple models
@@ -173,6 +174,24 @@ theorem C20_product_keys {α : Type} (items : List (List α)) :
     exact List.nodup_range
   · simp [comboKeys, length_product, List.map_map, Function.comp_def]
 
+/-- … and `items()` pairs every index tuple with exactly the tuple of items it indexes:
+    the key list is `keys()`, the looked-up values are `values()`, position by position,
+    and no lookup is out of range. -/
+theorem C20_product_items_aligned {α : Type} (items : List (List α)) :
+    (comboItems items).map (·.1) = comboKeys items ∧
+    (comboItems items).map (·.2) = (comboValues items).map some := by
+  constructor
+  · simp [comboItems, List.map_map, Function.comp_def]
+  · simp only [comboItems, List.map_map, Function.comp_def, comboValues]
+    exact combo_lookup items
+
+/-- RowCollector: appending a dict that has exactly the column names (in any order) is the
+    same as appending the list of its values read in column order. -/
+theorem C20_dict_row {α : Type} (r : RC α) (kvs : List (String × α)) (vals : List α)
+    (hk : ∀ kv ∈ kvs, kv.1 ∈ r.names)
+    (hv : r.names.mapM (fun n => dget kvs n) = some vals) :
+    r.appendDict kvs = r.appendRow vals := appendDict_eq r kvs vals hk hv
+
 /-! Non-vacuity: concrete instances of the hypotheses used above. -/
 example : (RC.mk ["a", "b"] [[1, 2], [3, 4]] : RC Nat).WF := by
   refine ⟨by simp, ?_⟩; intro c hc; simp at hc; rcases hc with rfl | rfl <;> rfl
@@ -180,6 +199,8 @@ example : [1, 0].Perm (List.range (RC.mk ["a", "b"] [[1, 2], [3, 4]] : RC Nat).s
   decide
 example : ((Tbl.init : Tbl String Nat).run [.append "a" 1, .append "b" 2, .append "a" 3,
     .del "a", .getPos (-1), .keys]).2 = [.unit, .unit, .unit, .unit, .val 2, .keys ["b"]] := by
+  decide
+example : (["a", "b"] : List String).mapM (fun n => dget [("b", 2), ("a", 1)] n) = some [1, 2] := by
   decide
 example : gridItems 5 3 true false = [(5, 1, 2)] := by decide
 
